@@ -31,8 +31,9 @@ CHECKS["C01"] = {
         VM(1500, 20000, kinds=["vmrun"], projections=["skeleton"], oracles=["wf"]),
         {"name": "envcheck", "quick_n": 1500, "thorough_n": 20000, "oracles_only": True, "oracles": ["envcheck-wrong-result", "envcheck-result-ill-formed"]},
         {"name": "conv", "quick_n": 3000, "thorough_n": 40000, "oracles_only": True, "oracles": ["conv-wf"]},
+        {"name": "engine", "quick_n": 1500, "thorough_n": 20000, "oracles": ["api-panic", "process-crash"]},
     ],
-    "explanation": "Preservation is a theorem over the model: check Γ e = ok (T, e') and a conforming environment imply every value eval produces is deeply well formed (WF) with own type tyEq T, irrespective of object field order (C01.preservation, annotated_sound, check_annotated, builtin_sound for all 53 strict built-ins, host_respects, field_order, no_nil); the VM inherits it through C03. The model is tied to the code by the eval/vm streams under the type-skeleton projection, and the implementation-side oracle walks every result of all four back ends against the inferred type with types.Equals. At the boundary: whatever environment the check ACCEPTS, the value produced is well formed (envcheck stream, object-literal results through which every variable flows: envcheck-result-ill-formed), and every value the reflection layer hands over is well formed at every step of a history of conversions of one Go type (conv stream: conv-wf).",
+    "explanation": "Preservation is a theorem over the model: check Γ e = ok (T, e') and a conforming environment imply every value eval produces is deeply well formed (WF) with own type tyEq T, irrespective of object field order (C01.preservation, annotated_sound, check_annotated, builtin_sound for all 53 strict built-ins, host_respects, field_order, no_nil); the VM inherits it through C03. The model is tied to the code by the eval/vm streams under the type-skeleton projection, and the implementation-side oracle walks every result of all four back ends against the inferred type with types.Equals. At the boundary: whatever environment the check ACCEPTS, the value produced is well formed (envcheck stream, object-literal results through which every variable flows: envcheck-result-ill-formed), and every value the reflection layer hands over is well formed at every step of a history of conversions of one Go type (conv stream: conv-wf). The engine stream (API histories on one yae.Expr against Engine.run, with overload sets registered in both orders) compares the values produced through the public API with the model's, whose values are well typed by the theorem.",
     "assumptions": ["host functions respect their registered signature (hostRespects, decidable for the harness's host zoo); type-variable names of registered signatures do not start with s/t (okVars; true of the built-in table by decide)"],
 }
 
@@ -44,8 +45,9 @@ CHECKS["C02"] = {
         EVAL(4000, 60000, kinds=["run", "pipeline"], projections=["class"], model_is_oracle=True,
              oracles=["internal-fault", "compile-internal-fault", "check-internal-fault", "process-crash"]),
         VM(1500, 20000, kinds=["vmrun", "verify"], projections=["class", "verify"], oracles=["compile-internal-fault", "process-crash"]),
+        {"name": "engine", "quick_n": 1500, "thorough_n": 20000, "oracles": ["api-panic", "process-crash"]},
     ],
-    "explanation": "Progress is a theorem over the model: an accepted program in a conforming environment, with fuel above its depth, yields a well-typed value or one of the four documented failures (or a deliberately failing host function / an extern-table miss of the harness) — never another stuck outcome, never fuel (C02.progress, no_internal_fault); exact characterisations of each partial operation (exact_index, exact_key, exact_mod, exact_regex) and totality of get-with-default and every other strict built-in (total_get, total, fail_exact). For the VM: verified code never underflows, never meets a bad opcode or constant kind and terminates within the code size (C11.verify_sound). Tie: outcome-class projection of the eval/vm streams; the oracle classifies every Go panic of all four back ends.",
+    "explanation": "Progress is a theorem over the model: an accepted program in a conforming environment, with fuel above its depth, yields a well-typed value or one of the four documented failures (or a deliberately failing host function / an extern-table miss of the harness) — never another stuck outcome, never fuel (C02.progress, no_internal_fault); exact characterisations of each partial operation (exact_index, exact_key, exact_mod, exact_regex) and totality of get-with-default and every other strict built-in (total_get, total, fail_exact). For the VM: verified code never underflows, never meets a bad opcode or constant kind and terminates within the code size (C11.verify_sound). Tie: outcome-class projection of the eval/vm streams; the oracle classifies every Go panic of all four back ends. The engine stream plays API histories on one yae.Expr (registrations of colliding and overloaded functions in any order, four compilers, invocation of any earlier Callable) against Engine.run: an accepted call that runs another function than the one the checker resolved shows as an outcome the model does not have.",
     "assumptions": ["same as C01"],
 }
 
@@ -223,8 +225,9 @@ CHECKS["C16"] = {
     "streams": [
         EVAL(4000, 60000, kinds=["check", "run"], projections=["accept", "class"], model_is_oracle=["check", "run"], input_regex=r"\b(mb|ms|om|mb2|om2)\b|maybe|Nothing|Just"),
         {"name": "conv", "quick_n": 4000, "thorough_n": 50000, "oracles_only": True, "oracles": ["conv-wf", "conv-type-disagrees"]},
+        {"name": "envcheck", "quick_n": 2000, "thorough_n": 30000, "oracles_only": True, "oracles": ["envcheck-accepts-mismatch", "envcheck-result-ill-formed"], "oracle_input_regex": r"maybe|nil"},
     ],
-    "explanation": "Proved: unification of a pattern with an optional type succeeds only for a variable, an optional pattern (or top, which no registered signature contains) (no_coercion, builtins_no_top); in every accepted call an optional argument meets a type-variable or optional parameter (accepted_call_no_coercion); by decide over the regenerated built-in table the only optional parameter is get's and the bare-variable positions are listed (sole_eliminator); member and subscript on an optional are rejected (member_rejected, subscript_rejected); get(optional, d) yields payload or default (get_maybe_spec); accepted programs over environments with absent values never fail because of them (C02.progress with WF admitting nothing). Tie: eval stream with optional-typed variables present/absent and nested, conv stream with nil pointers/slices/maps.",
+    "explanation": "Proved: unification of a pattern with an optional type succeeds only for a variable, an optional pattern (or top, which no registered signature contains) (no_coercion, builtins_no_top); in every accepted call an optional argument meets a type-variable or optional parameter (accepted_call_no_coercion); by decide over the regenerated built-in table the only optional parameter is get's and the bare-variable positions are listed (sole_eliminator); member and subscript on an optional are rejected (member_rejected, subscript_rejected); get(optional, d) yields payload or default (get_maybe_spec); accepted programs over environments with absent values never fail because of them (C02.progress with WF admitting nothing). Tie: eval stream with optional-typed variables present/absent and nested, conv stream with nil pointers/slices/maps. The envcheck stream (oracles restricted to inputs with optionals or nil): a run-time environment that differs from the compile-time one in optionality is refused, so an accepted expression never meets an absent value where it was compiled for a present one.",
     "assumptions": [],
 }
 
